@@ -1236,7 +1236,7 @@ fn builders_fam(c: &mut Case) {
 fn main() {
     runner::main(Spec {
         property: "C11",
-        rule: "one training set per case from seeded generators: 2..120 rows in arbitrary order, 1..8 features, 2..5 classes with skewed frequencies and label values 0..k-1 / 1..k / small arbitrary / ±1000 / ±2e6 / negative (categorical: non-negative with gaps), alpha = 1 or log-uniform in [1e-2,5], user priors in 35 % of the Gaussian/multinomial/Bernoulli cases; Gaussian: real or small-integer features with per-feature location and scale, every class has >= 2 rows and >= 2 distinct values per feature (family gaussian_offset adds a common offset of 1e3..1e8 spreads); multinomial: counts 0..9; Bernoulli: 0/1 without binarisation, or counts / reals / integers with a threshold (values equal to the threshold included); categorical: 1..5 codes per feature, contiguous or with gaps; bernoulli_enum enumerates all 14 two-class labellings x all 256 binary 4x2 matrices; 13..19 query rows per case (training rows, rows mixing training values, fresh rows; categorical only codes seen in training). A case is non-trivial when the fit succeeded, the class structure was reported correctly and for at least one query row the MAP oracle rejected at least one class (the arg-max was discriminating). distinct = hash of (variant, width, X, y, alpha, binarize, priors)",
+        rule: "one training set per case from seeded generators: 2..120 rows in arbitrary order, 1..8 features, 2..5 classes with skewed frequencies and label values 0..k-1 / 1..k / small arbitrary / ±1000 / ±2e6 / negative (categorical: non-negative with gaps), alpha = 1 or log-uniform in [1e-2,5], user priors in 35 % of the Gaussian/multinomial/Bernoulli cases; Gaussian: real or small-integer features with per-feature location and scale, every class has >= 2 rows and >= 2 distinct values per feature (family gaussian_offset adds a common offset of 1e3..1e8 spreads); multinomial: counts 0..9; Bernoulli: 0/1 without binarisation, or counts / reals / integers with a threshold (values equal to the threshold included); categorical: 1..5 codes per feature, contiguous or with gaps; bernoulli_enum enumerates all 14 two-class labellings x all 256 binary 4x2 matrices; 13..19 query rows per case (training rows, rows mixing training values, fresh rows; categorical only codes seen in training). A case is non-trivial when the fit succeeded, the class structure was reported correctly and for at least one query row the MAP oracle rejected at least one class (the arg-max was discriminating). distinct = hash of (variant, width, X, y, alpha, binarize, priors); parameter objects are passed to fit as clones in every second case",
         assumptions: vec![
             "the order in which a model lists its classes is not checked; all per-class statistics are aligned by label value, user priors must be stored positionally as supplied",
             "Gaussian moments (f64 only): |mean - ref| <= 1e-9·max|x|, |var - ref| <= 1e-9·var + (n·eps·max|x|)^2 against compensated two-pass references (the second term only matters for E[x^2]/Var > 1e18, where the mean itself is not representable accurately enough); the signature of a moment violation is the decade of E[x^2]/Var of the column",
